@@ -64,6 +64,7 @@ CHECKS = {
             {"name": "TestC16RoundTrip", "checks": [1500, 30000], "shards": [1, 8], "floor": 0.5},
             {"name": "TestC16Render", "checks": [1500, 30000], "shards": [2, 16], "floor": 0.7},
             {"name": "TestC16Files", "checks": [300, 6000], "shards": [1, 8], "floor": 0.5},
+            {"name": "TestC16Static", "enum": True},
             {"name": "FuzzCompiledRoundTrip", "fuzz": True, "fuzztime": [0, 60]},
             K,
         ],
@@ -121,6 +122,7 @@ CHECKS = {
             {"name": "TestC17Faults", "checks": [600, 15000], "shards": [4, 16], "floor": 0.6},
             {"name": "TestC17Names", "checks": [2000, 50000], "shards": [2, 16]},
             {"name": "TestC17Overrides", "enum": True},
+            {"name": "TestC17Unknown", "enum": True},
             {"name": "TestC17Loaders", "checks": [1000, 30000], "shards": [1, 8]},
             K,
         ],
@@ -141,6 +143,7 @@ CHECKS = {
             {"name": "TestC11Include", "checks": [3000, 100000], "shards": [2, 16], "floor": 0.85},
             {"name": "TestC11Options", "enum": True},
             {"name": "TestC11Relative", "enum": True},
+            {"name": "TestC11Later", "enum": True},
             K,
         ],
         "assumptions": ["only the hash-literal form of `with` is generated (the README documents no other)",
@@ -173,6 +176,7 @@ CHECKS = {
             {"name": "TestC13Dashes", "checks": [3000, 100000], "shards": [2, 16], "floor": 0.7},
             {"name": "TestC13Singles", "enum": True},
             {"name": "TestC13TokenSweep", "enum": True},
+            {"name": "TestC13ManyDashes", "enum": True},
             K,
         ],
         "assumptions": ["a dash affects only the text segment adjacent to its delimiter (an all-blank segment is removed entirely; trimming does not continue beyond the next tag)"],
